@@ -687,6 +687,7 @@ func laneE2E(c *ev.Ctx) {
 		}(sh, b)
 	}
 	wg.Wait()
+	e2eBatches(x, env.Client(0), "e2e/batch", "bucket", c.Pick(30, 300))
 	if _, cr := env.Dead(); cr != nil {
 		x.dead.Do(func() {
 			c.Violation("e2e:gateway-died", "e2e", map[string]any{"crash": cr.Message, "frame": cr.TopFrame})
